@@ -525,6 +525,60 @@ Proof.
   eexists. vm_compute. reflexivity.
 Qed.
 
+(* ================================================================== 9. EhHdrTableIter as a state machine *)
+(* operations next / nth k / size_hint on ONE iterator, any history. iter_spec row total dec q rem ops
+   (Proofs/CfiRdHist.v) is the expected observation list: state q = rows the reader has moved past,
+   rem = rows still claimed;  next = row q (None when rem = 0);  nth k: rem := rem -sat k, skip k rows
+   (UnsupportedOffset if k*row overflows u64, UnexpectedEof and nothing skipped if fewer than k rows
+   of bytes remain before the end of the section), then next = row q+k and q := q+k+1;
+   size_hint = (rem, Some rem). *)
+Theorem hdr_iter_history : forall dbg hb h size o0 rows pad dec ops,
+  tbl_field_size (h_enc h) = Some size -> wf_rows size rows ->
+  table_decodes dbg hb h size o0 rows dec ->
+  h_count h = N.of_nat (length rows) -> h_table h = mkrd o0 (flat rows ++ pad) ->
+  tbl_run dbg hb h (tbl_iter h) ops =
+  iter_spec (size * 2) (nlen (flat rows ++ pad)) dec 0 (N.of_nat (length rows)) ops.
+Proof. exact hdr_iter_history_thm. Qed.
+
+(* the rows are those of the full scan *)
+Theorem hdr_iter_full_scan : forall dbg hb h size o0 rows pad dec,
+  tbl_field_size (h_enc h) = Some size -> wf_rows size rows ->
+  table_decodes dbg hb h size o0 rows dec ->
+  h_count h = N.of_nat (length rows) -> h_table h = mkrd o0 (flat rows ++ pad) ->
+  tbl_all dbg hb h = Ok (dec, None).
+Proof. exact hdr_full_scan_thm. Qed.
+
+(* a history only ever yields rows of the table (never anything decoded from bytes after it) ... *)
+Theorem hdr_iter_yields_only_table_rows : forall row total dec ops q rem x,
+  In (BItem (Some x)) (iter_spec row total dec q rem ops) -> In x dec.
+Proof. exact iter_spec_in. Qed.
+
+(* ... and once the iterator has ended no operation yields a row again (next: None; nth: None, or
+   UnexpectedEof / UnsupportedOffset when the skip itself is impossible) *)
+Theorem hdr_iter_ended_stays_ended : forall row total dec ops q,
+  Forall (fun o => ~ yields_row o) (iter_spec row total dec q 0 ops).
+Proof. exact iter_spec_ended. Qed.
+
+Example hdr_iter_history_instance :
+  tbl_field_size (h_enc ex_hdr_pad) = Some 4 /\ wf_rows 4 ex_rows /\
+  table_decodes true no_bases ex_hdr_pad 4 12 ex_rows ex_dec /\
+  h_count ex_hdr_pad = N.of_nat (length ex_rows) /\
+  h_table ex_hdr_pad = mkrd 12 (flat ex_rows ++ map n2b [9; 9; 9; 9; 9; 9; 9; 9]) /\
+  (* nth 1 skips row 0 and yields row 1; next yields row 2; the 8 padding bytes are never decoded:
+     next -> None, nth 1 (one row of padding can be skipped) -> None, nth 1 again -> UnexpectedEof *)
+  tbl_run true no_bases ex_hdr_pad (tbl_iter ex_hdr_pad)
+    [OHint; ONth 1; OHint; ONext; OHint; ONext; ONth 1; ONth 1; ONext] =
+  [BHint 3 (Some 3); BItem (Some (Direct 512, Direct 4160)); BHint 1 (Some 1);
+   BItem (Some (Direct 768, Direct 4208)); BHint 0 (Some 0); BItem None; BItem None;
+   BErr EUnexpectedEof; BItem None].
+Proof.
+  split; [reflexivity|]. split; [repeat constructor|]. split.
+  { split; [reflexivity|]. intros j r x Hr Hx.
+    destruct j as [|[|[|j]]]; cbn in Hr, Hx; try (injection Hr as <-; injection Hx as <-; split; vm_compute; reflexivity).
+    destruct j; discriminate. }
+  split; [reflexivity|]. split; [reflexivity|]. vm_compute. reflexivity.
+Qed.
+
 (* statement pins *)
 Check eh_pe_valid_all : forall e, e < 256 -> pe_is_valid e = valid_spec e.
 Check linear_lookup_is_scan : forall dbg c sec a items e,
